@@ -353,6 +353,35 @@ func (r *Report) NewViolations(findings []Finding) int {
 	return n
 }
 
+// NewDiags lists the diagnostics that are not known findings.
+func (r *Report) NewDiags(findings []Finding) []Diag {
+	known := map[string]bool{}
+	for _, f := range findings {
+		if f.Property == r.Property && f.Status == "known" {
+			known[f.Key()] = true
+		}
+	}
+	var out []Diag
+	for _, d := range r.diags {
+		if !(known[d.Key()] && d.Kind == "violation") {
+			out = append(out, d)
+		}
+	}
+	return out
+}
+
+// Failures lists the checker-level failures recorded so far, including floors that
+// are not met (anchor loss).
+func (r *Report) Failures() []string {
+	out := append([]string(nil), r.fatal...)
+	for rule, n := range r.floors {
+		if r.ruleCount[rule] < n {
+			out = append(out, fmt.Sprintf("vacuous: rule %s matched %d instances, floor is %d", rule, r.ruleCount[rule], n))
+		}
+	}
+	return out
+}
+
 // ReplayKeys reads the obligation keys recorded in a replay file.
 func ReplayKeys(path string) ([]string, error) {
 	b, err := os.ReadFile(path)
